@@ -59,7 +59,7 @@ def unit_obligations(u, tier):
         o.setdefault('flags', [])
         o.setdefault('defines', [])
         o.setdefault('tiers', ['quick', 'thorough'])
-        o.setdefault('timeout', 600)
+        o.setdefault('timeout', int(os.environ.get('FRGV_TIMEOUT', '600')))
         o['unit'] = u['name']
     return [o for o in obs if tier in o['tiers']]
 
@@ -88,8 +88,11 @@ def extract_unit(u, bdir):
     meta = {'functions': ex.meta, 'externs': ex.externs, 'records': ex.records_used,
             'layout_asserts': ex.layout_asserts, 'extract_s': round(time.time() - t0, 2)}
     # the layout self-check is decided by a native compile of the lowered text
+    pre = []
+    for p_ in u.get('pre_includes', []):
+        pre += ['-include', os.path.join(u['dir'], p_)]
     chk = subprocess.run(['gcc', '-fsyntax-only', '-std=gnu11', '-I', os.path.join(ROOT, 'stubs'), '-DFRGV_NATIVE', '-w',
-                          '-include', 'frgv_prelude.h', '-x', 'c', os.path.join(bdir, 'unit.c')],
+                          '-include', 'frgv_prelude.h'] + pre + ['-x', 'c', os.path.join(bdir, 'unit.c')],
                          stdout=subprocess.PIPE, stderr=subprocess.PIPE, text=True)
     if chk.returncode != 0:
         raise ToolFailure('unit %s: lowered C does not compile natively / layout self-check failed:\n%s' % (u['name'], chk.stderr[-2000:]))
@@ -151,6 +154,16 @@ def parse_cbmc_json(out):
 CANARY = 'canary'
 
 def run_obligation(u, ob, bdir, trace=False):
+    """solve one obligation; a failing one is solved again with --trace (inside the same worker)"""
+    res = run_obligation1(u, ob, bdir, trace)
+    if res['status'] == 'fail' and not trace:
+        rt = run_obligation1(u, ob, bdir, True)
+        if rt['status'] == 'fail':
+            rt['solver_s'] = res['solver_s']
+            return rt
+    return res
+
+def run_obligation1(u, ob, bdir, trace=False):
     """compile, instrument, solve one obligation; returns a result dict"""
     oid = ob['id']
     safe = re.sub(r'[^A-Za-z0-9_.-]', '_', oid)
@@ -245,6 +258,10 @@ def run_obligation(u, ob, bdir, trace=False):
                       'unwinding assertion', 'recursion unwinding'):
             if kname in desc or kname in prop.replace('_', ' '):
                 kinds.add(kname)
+        if 'invariant' in desc and 'loop' in desc:
+            kinds.add('loop invariant')
+        if 'decreases' in desc or 'variant' in desc and 'decreas' in desc:
+            kinds.add('decreases')
         if st != 'SUCCESS':
             item = {'property': prop, 'description': desc, 'status': st,
                     'source': r.get('sourceLocation', {})}
@@ -399,8 +416,7 @@ def check(prop, tier, only=None):
         for r in violations:
             u = unit_by_name[r['unit']]
             ob = ob_by_id[r['id']]
-            # re-run with a trace for the counterexample
-            rt = run_obligation(u, ob, os.path.join(BUILD, prop, u['name']), trace=True)
+            rt = r     # already carries the counterexample trace (see run_obligation)
             path = os.path.join(REPLAYS, '%s-%s.json' % (prop, re.sub(r'[^A-Za-z0-9_.-]', '_', r['id'])))
             rep = {'property': prop, 'unit': r['unit'], 'obligation': r['id'], 'function': r.get('function'),
                    'source': metas[r['unit']]['functions'].get(r.get('function'), {}),
